@@ -4,7 +4,8 @@ import json, os, re
 VERIF = os.path.dirname(os.path.dirname(os.path.abspath(__file__)))
 root = os.path.join(VERIF, "seeded")
 res = json.load(open(os.path.join(root, "RESULTS.json"))) if os.path.exists(os.path.join(root, "RESULTS.json")) else {}
-rows = ["| seeded change | property | needs | caught by (quick, seed 0) | first failing clause | history |", "|---|---|---|---|---|---|"]
+res1 = json.load(open(os.path.join(root, "RESULTS_seed1.json"))) if os.path.exists(os.path.join(root, "RESULTS_seed1.json")) else {}
+rows = ["| seeded change | property | needs | caught by (quick, seed 0) | seed 1 | first failing clause | history |", "|---|---|---|---|---|---|---|"]
 for name in sorted(os.listdir(root)):
     d = os.path.join(root, name)
     if not os.path.isdir(d):
@@ -15,7 +16,9 @@ for name in sorted(os.listdir(root)):
     caught = ("%s: yes (%d violations)" % (by, r.get("violations", 0))) if r.get("caught") else ("%s: no" % by if r else "not swept")
     first = (r.get("first") or [""])[0].replace("what: ", "").replace("|", "/")[:110]
     hist = "; ".join("%s: %s" % (k, v) for k, v in (m.get("checks") or {}).items()).replace("|", "/")
-    rows.append("| `%s` | %s | %s | %s | %s | %s |" % (name, m["property"], m.get("needs", "").replace("|", "/")[:160], caught, first, hist[:260]))
+    r1 = res1.get(name)
+    s1 = "-" if r1 is None else ("yes" if r1.get("caught") else "no")
+    rows.append("| `%s` | %s | %s | %s | %s | %s | %s |" % (name, m["property"], m.get("needs", "").replace("|", "/")[:160], caught, s1, first, hist[:420]))
 p = os.path.join(VERIF, "DESIGN.md")
 s = open(p).read()
 s = re.sub(r"<!-- SEEDTABLE -->.*<!-- /SEEDTABLE -->", "<!-- SEEDTABLE -->\n" + "\n".join(rows) + "\n<!-- /SEEDTABLE -->", s, flags=re.S)
